@@ -1,4 +1,5 @@
 import Shentu.Model.Bank
+import Shentu.Gen.Oracle
 /-
   Executable model of x/oracle (keeper/operator.go, withdraw.go, pool.go, task.go,
   msg_server.go, abci.go).  One function per keeper entry point; a Go `panic` is
@@ -93,14 +94,17 @@ def addClosing (s : State) (h : Int) (id : String × String) : State :=
   else { s with closing := s.closing ++ [(h, [id])] }
 def delClosing (s : State) (h : Int) : State := { s with closing := s.closing.filter (fun e => !(e.1 == h)) }
 
-def belowMin (e : Env) (s : State) (c : Coins) : Bool := Coins.amountOf c e.bond < s.params.minColl
+def belowMin (e : Env) (s : State) (c : Coins) : Bool := Gen.Oracle.belowMin (Coins.amountOf c e.bond) s.params.minColl
+
+/-- store update at key (due block, address): add to the pending record if there is one, else insert -/
+def upsertWd (a : Addr) (due : Int) (amt : Coins) : List Withdraw → List Withdraw
+  | [] => [{ addr := a, amt := amt, due := due }]
+  | w :: ws => if w.due == due && w.addr == a then { w with amt := Coins.add w.amt amt } :: ws
+               else w :: upsertWd a due amt ws
 
 /-- `CreateWithdraw`: keyed by (due block, address); a pending record with the same key is merged -/
 def createWithdraw (e : Env) (s : State) (a : Addr) (amt : Coins) : State :=
-  let due := e.h + s.params.lock
-  if (s.wds.find? (fun w => w.due == due && w.addr == a)).isSome then
-    { s with wds := s.wds.map (fun w => if w.due == due && w.addr == a then { w with amt := Coins.add w.amt amt } else w) }
-  else { s with wds := s.wds ++ [{ addr := a, amt := amt, due := due }] }
+  { s with wds := upsertWd a (Gen.Oracle.dueBlock e.h s.params.lock) amt s.wds }
 
 /-- `Coins.Sub` panics when the result has a negative entry -/
 def subPanics (a b : Coins) : Bool := Coins.isAnyNegative (Coins.sub a b)
@@ -165,18 +169,18 @@ def withdrawReward (e : Env) (l : Ledger) (s : State) (a : Addr) : Except Err (L
 
 def createTask (e : Env) (l : Ledger) (s : State) (contract function : String) (bounty : Coins)
     (creator : Addr) (wait validNs : Int) : Except Err (Ledger × State) :=
-  let window := if wait == 0 then s.params.window else wait
+  let window := if Gen.Oracle.waitIsDefault wait then s.params.window else wait
   -- `msg.ValidDuration.Microseconds() == 0`
-  let expiration := if Int.tdiv validNs 1000 == 0 then e.t + s.params.expDur else e.t + validNs
+  let expiration := if Gen.Oracle.validIsDefault validNs then e.t + s.params.expDur else e.t + validNs
   let key := contract ++ function
   let pre : Except Err State :=
     match findTask s key with
-    | some t => if t.closing > e.h then err "oracle:task-not-closed" else .ok (delTask s key)
+    | some t => if Gen.Oracle.ctNotClosed t.closing e.h then err "oracle:task-not-closed" else .ok (delTask s key)
     | none => .ok s
   match pre with
   | .error x => .error x
   | .ok s0 =>
-    let closing := e.h + window
+    let closing := Gen.Oracle.ctClosingBlock e.h window
     let t : Task := { contract := contract, function := function, begin := e.h, bounty := bounty, expiration := expiration,
                       creator := creator, responses := [], result := 0, closing := closing, waiting := window, status := 1 }
     let s1 := addClosing (setTask s0 t) closing (contract, function)
@@ -189,18 +193,18 @@ def respond (e : Env) (s : State) (contract function : String) (score : Int) (op
   else match findTask s (contract ++ function) with
   | none => err "oracle:no-task"
   | some t =>
-    if e.h > t.closing then err "oracle:task-closed"
+    if Gen.Oracle.respClosed e.h t.closing then err "oracle:task-closed"
     else if t.responses.any (·.op == op) then err "oracle:duplicate-response"
-    else if score < 0 || score > 100 then err "oracle:invalid-score"
+    else if Gen.Oracle.badScore score then err "oracle:invalid-score"
     else .ok (setTask s { t with responses := t.responses ++ [{ op := op, score := score, weight := 0, reward := [] }] })
 
 def deleteTask (e : Env) (s : State) (contract function : String) (force : Bool) (deleter : Addr) : Except Err State :=
   match findTask s (contract ++ function) with
   | none => err "oracle:no-task"
   | some t =>
-    if !force && !(t.expiration < e.t) then err "oracle:not-expired"
-    else if e.h ≤ t.closing then err "oracle:not-finished"
-    else if !(t.creator == deleter) then err "oracle:not-creator"
+    if Gen.Oracle.rmNotExpired force t.expiration e.t then err "oracle:not-expired"
+    else if Gen.Oracle.rmNotFinished e.h t.closing then err "oracle:not-finished"
+    else if Gen.Oracle.rmNotCreator t.creator deleter then err "oracle:not-creator"
     else .ok (delTask s (contract ++ function))
 
 /-- `GetCollateralAmount`: the amount of the *first* coin of the stored collateral;
@@ -225,36 +229,35 @@ def aggFold (s : State) : List Response → Agg → Except Err Agg
     | .error x => .error x
     | .ok none => aggFold s rest { a with rs := a.rs ++ [r] }
     | .ok (some amt) =>
-      aggFold s rest { result := a.result + r.score * amt, total := a.total + amt,
-                       minC := if r.score == 0 then a.minC + amt else a.minC,
+      aggFold s rest { result := Gen.Oracle.aggAccum a.result r.score amt, total := a.total + amt,
+                       minC := if Gen.Oracle.aggIsMinScore r.score then a.minC + amt else a.minC,
                        rs := a.rs ++ [{ r with weight := amt }] }
 
 def aggregate (s : State) (key : String) : Except Err State :=
   match findTask s key with
   | none => err "oracle:no-task"
   | some t =>
-    if t.status != 1 then err "oracle:task-closed"
-    else match aggFold s t.responses { result := s.params.aggRes, total := 0, minC := 0, rs := [] } with
+    if Gen.Oracle.aggPending t.status then err "oracle:task-closed"
+    else match aggFold s t.responses { result := Gen.Oracle.aggInit s.params.aggRes, total := 0, minC := 0, rs := [] } with
     | .error x => .error x
     | .ok a =>
-      if a.total > 0 then
-        if a.minC * 3 ≥ a.total then
-          .ok (setTask s { t with responses := a.rs.map (fun r => if r.score == 0 then r else { r with weight := 0 }),
-                                  result := a.minC, status := 2 })
-        else .ok (setTask s { t with responses := a.rs, result := Int.tdiv a.result a.total, status := 2 })
+      if Gen.Oracle.aggHasCollateral a.total then
+        if Gen.Oracle.aggMinRegime a.minC a.total then
+          .ok (setTask s { t with responses := a.rs.map (fun r => if r.score == Gen.Oracle.minScore then r else { r with weight := 0 }),
+                                  result := Gen.Oracle.aggMinResult a.minC, status := 2 })
+        else .ok (setTask s { t with responses := a.rs, result := Gen.Oracle.aggMean a.result a.total, status := 2 })
       else .ok (setTask s { t with responses := a.rs, result := a.result, status := 3 })
 
-def amplifier : Int := 1000000
 
 /-- which branch of TotalValidTaskCollateral / DistributeBounty applies: 0 min-score, 1 below threshold, 2 otherwise -/
 def branch (s : State) (t : Task) : Nat :=
-  if t.result == 0 then 0 else if t.result < s.params.threshold then 1 else 2
+  if Gen.Oracle.tvBranchMin t.result then 0 else if Gen.Oracle.tvBranchLow t.result s.params.threshold then 1 else 2
 
 def eligible (s : State) (b : Nat) (r : Response) : Bool :=
   match b with
-  | 0 => r.score == 0
-  | 1 => r.score < s.params.threshold
-  | _ => r.score ≥ s.params.threshold
+  | 0 => Gen.Oracle.tvEligMin r.score
+  | 1 => Gen.Oracle.tvEligLow r.score s.params.threshold
+  | _ => Gen.Oracle.tvEligHigh r.score s.params.threshold
 
 /-- the weight of an eligible response (`none`: responder is no longer an operator); sdk.Int.Quo panics on zero -/
 def respWeight (s : State) (b : Nat) (r : Response) : Except Err (Option Int) :=
@@ -263,11 +266,11 @@ def respWeight (s : State) (b : Nat) (r : Response) : Except Err (Option Int) :=
   | .ok none => .ok none
   | .ok (some c) =>
     match b with
-    | 0 => .ok (some c)
+    | 0 => .ok (some (Gen.Oracle.tvWeightMin c))
     | 1 => if r.score + s.params.eps1 == 0 then panicE "oracle:quo-zero-eps1"
-           else .ok (some (Int.tdiv (amplifier * c) (r.score + s.params.eps1)))
+           else .ok (some (Gen.Oracle.tvWeightLow c r.score s.params.eps1))
     | _ => if 100 - r.score + s.params.eps2 == 0 then panicE "oracle:quo-zero-eps2"
-           else .ok (some (Int.tdiv (amplifier * c) (100 - r.score + s.params.eps2)))
+           else .ok (some (Gen.Oracle.tvWeightHigh c r.score s.params.eps2))
 
 def totalValid (s : State) (b : Nat) : List Response → Int → Except Err Int
   | [], acc => .ok acc
@@ -279,17 +282,39 @@ def totalValid (s : State) (b : Nat) : List Response → Int → Except Err Int
       | .ok (some w) => totalValid s b rest (acc + w)
     else totalValid s b rest acc
 
+/-- branch selection and eligibility as written in DistributeBounty (a second copy in the source) -/
+def branchDB (s : State) (t : Task) : Nat :=
+  if Gen.Oracle.dbBranchMin t.result then 0 else if Gen.Oracle.dbBranchLow t.result s.params.threshold then 1 else 2
+
+def eligibleDB (s : State) (b : Nat) (r : Response) : Bool :=
+  match b with
+  | 0 => Gen.Oracle.dbEligMin r.score
+  | 1 => Gen.Oracle.dbEligLow r.score s.params.threshold
+  | _ => Gen.Oracle.dbEligHigh r.score s.params.threshold
+
+/-- the reward of one eligible responder for one bounty coin -/
+def payAmount (s : State) (b : Nat) (amount tv : Int) (r : Response) : Except Err (Option Int) :=
+  match collateralAmount s r.op with
+  | .error x => .error x
+  | .ok none => .ok none
+  | .ok (some c) =>
+    match b with
+    | 0 => .ok (some (Gen.Oracle.dbAmountMin amount c tv))
+    | 1 => if r.score + s.params.eps1 == 0 then panicE "oracle:quo-zero-eps1"
+           else .ok (some (Gen.Oracle.dbAmountLow amount c r.score s.params.eps1 tv))
+    | _ => if 100 - r.score + s.params.eps2 == 0 then panicE "oracle:quo-zero-eps2"
+           else .ok (some (Gen.Oracle.dbAmountHigh amount c r.score s.params.eps2 tv))
+
 /-- one bounty coin over the responses; returns updated state (rewards credited) and responses -/
 def payCoin (b : Nat) (denom : Denom) (amount tv : Int) :
     State → List Response → List Response → Except Err (State × List Response)
   | s, [], done => .ok (s, done)
   | s, r :: rest, done =>
-    if eligible s b r then
-      match respWeight s b r with
+    if eligibleDB s b r then
+      match payAmount s b amount tv r with
       | .error x => .error x
       | .ok none => payCoin b denom amount tv s rest (done ++ [r])
-      | .ok (some w) =>
-        let amt := Int.tdiv (amount * w) tv
+      | .ok (some amt) =>
         if amt < 0 then panicE "oracle:negative-coin"
         else
           let reward : Coins := if amt == 0 then [] else [(denom, amt)]
@@ -308,12 +333,11 @@ def payAll (b : Nat) (tv : Int) : List (Denom × Int) → State → List Respons
     | .ok (s', rs') => payAll b tv cs s' rs'
 
 def distributeBounty (s : State) (t : Task) : Except Err State :=
-  let b := branch s t
-  match totalValid s b t.responses 0 with
+  match totalValid s (branch s t) t.responses 0 with
   | .error x => .error x
   | .ok tv =>
-    if tv == 0 then err "oracle:task-failed"
-    else match payAll b tv (Coins.canon t.bounty) s t.responses with
+    if Gen.Oracle.dbNoValid tv then err "oracle:task-failed"
+    else match payAll (branchDB s t) tv (Coins.canon t.bounty) s t.responses with
     | .error x => .error x
     | .ok (s', rs) => .ok (setTask s' { t with responses := rs })
 
@@ -342,7 +366,7 @@ def endBlock (e : Env) (s : State) : Except Err State :=
   | .ok s' => .ok (delClosing s' e.h)
 
 /-- maturity test of `IterateMatureWithdraws` -/
-def mature (h : Int) (w : Withdraw) : Bool := w.due ≤ h
+def mature (h : Int) (w : Withdraw) : Bool := !(Gen.Oracle.matureSkip w.due h)
 
 def payWithdraws (e : Env) : List Withdraw → Ledger → Except Err Ledger
   | [], l => .ok l
@@ -355,5 +379,49 @@ def beginBlock (e : Env) (l : Ledger) (s : State) : Except Err (Ledger × State)
   match payWithdraws e (s.wds.filter (mature e.h)) l with
   | .error x => .error x
   | .ok l' => .ok (l', { s with wds := s.wds.filter (fun w => !(mature e.h w)) })
+
+end Shentu.Oracle
+
+namespace Shentu.Oracle
+
+/-! ### The oracle module as a state machine over operations -/
+
+inductive Op
+  | createOperator (a : Addr) (coll : Coins) (proposer : Addr)
+  | removeOperator (a : Addr)
+  | addCollateral (a : Addr) (inc : Coins)
+  | reduceCollateral (a : Addr) (dec : Coins)
+  | withdrawReward (a : Addr)
+  | createTask (contract function : String) (bounty : Coins) (creator : Addr) (wait validNs : Int)
+  | respond (contract function : String) (score : Int) (op : Addr)
+  | deleteTask (contract function : String) (force : Bool) (deleter : Addr)
+  | beginBlock
+  | endBlock
+
+def stepE (e : Env) (l : Ledger) (s : State) : Op → Except Err (Ledger × State)
+  | .createOperator a c p => createOperator e l s a c p
+  | .removeOperator a => removeOperator e l s a
+  | .addCollateral a c => addCollateral e l s a c
+  | .reduceCollateral a c => reduceCollateral e l s a c
+  | .withdrawReward a => withdrawReward e l s a
+  | .createTask c f b cr w v => createTask e l s c f b cr w v
+  | .respond c f sc o => (respond e s c f sc o).map (fun s' => (l, s'))
+  | .deleteTask c f fo d => (deleteTask e s c f fo d).map (fun s' => (l, s'))
+  | .beginBlock => beginBlock e l s
+  | .endBlock => (endBlock e s).map (fun s' => (l, s'))
+
+/-- a failed transaction leaves the state unchanged (the SDK runs messages on a cache) -/
+def step (e : Env) (ls : Ledger × State) (op : Op) : Ledger × State :=
+  match stepE e ls.1 ls.2 op with
+  | .ok r => r
+  | .error _ => ls
+
+/-- an operator's claim on the module account: collateral plus pending withdrawals -/
+def collAmt (s : State) (a : Addr) (d : Denom) : Int :=
+  Coins.amountOf (((findOp s a).map (·.coll)).getD []) d
+def pendList (l : List Withdraw) (a : Addr) (d : Denom) : Int :=
+  ((l.filter (fun w => w.addr == a)).map (fun w => Coins.amountOf w.amt d)).sum
+def pendAmt (s : State) (a : Addr) (d : Denom) : Int := pendList s.wds a d
+def held (s : State) (a : Addr) (d : Denom) : Int := collAmt s a d + pendAmt s a d
 
 end Shentu.Oracle
